@@ -5,6 +5,17 @@ V = os.path.dirname(os.path.dirname(os.path.abspath(__file__)))
 ALL = ["C%02d" % i for i in range(1, 20)]
 TECH = "symbolic execution of the real /repo source on z3 bit-vector proxies (symx), per-path SMT queries, concrete replay"
 CLAIMED = {
+ "C15": dict(text="Bounded symbolic verification: SCSIDevice over stubbed open/os.stat/sgio; event sequences (keep / replace "
+                  "/ remove node, close failure, CHECK CONDITION) enumerated up to k, inode values symbolic so that z3 decides "
+                  "every equal/different relation; handle-inode == node-inode at send, superseded handles closed, release "
+                  "exactly once.", ref="3/C15", note="k <= 3 quick / 5 thorough; TOCTOU between check and ioctl outside"),
+ "C18": dict(text="Bounded symbolic verification against a dict reference model: operation kind / enumeration / name chosen by "
+                  "the explorer, integer values symbolic (all equality patterns), two enumerations alive; agreement decided "
+                  "by z3 after every step.", ref="3/C18", note="k <= 3 quick / 4 thorough; names outside type/metaclass attributes"),
+ "C19": dict(text="Bounded symbolic verification: 4 binding-presence configurations x import of every module x reduced symbolic "
+                  "C01/C02; device strings of symbolic characters (every length <= 16) for init_device / SCSIDevice / "
+                  "ISCSIDevice, outcome compared with the dispatch table by z3.", ref="3/C19",
+             note="blocked import stands for an uninstalled binding; 7-bit characters"),
  "C08": dict(text="Bounded symbolic verification: SCSICheckCondition/__str__/print_data on L symbolic sense bytes (table "
                   "look-ups fork on hit/miss), plus exact-entry exploration of all sense keys and all ASC/ASCQ table "
                   "entries; z3 decides per path 'never raises', SPC-4 positions of key/ASC/ASCQ, T10 text for the "
